@@ -237,11 +237,12 @@ def surface_pressure_contract(en: E.Engine):
   lev = en.seq('pressure_levels', z3.RealSort(), length=n)
   geo = en.seq('geopotential', z3.RealSort(), length=n)
   oro, g = en.real('orography'), en.real('gravity_acceleration')
+  en.assume(g > 0)
   j = z3.Int('j')
   en.assume(z3.ForAll([j], z3.Implies(z3.And(j >= 0, j + 1 < n), z3.And(lev.get(j) < lev.get(j + 1), geo.get(j) > geo.get(j + 1)))))      # levels increase downwards, geopotential decreases
   k, m = z3.Int('k'), z3.Int('m')
   en.assume(z3.ForAll([k, m], z3.Implies(z3.And(k >= 0, k < m, m < n), geo.get(k) > geo.get(m)), patterns=[z3.MultiPattern(geo.get(k), geo.get(m))]))
-  en.cover('requires: n >= 2 increasing pressure levels, geopotential decreasing downwards')
+  en.cover('requires: n >= 2 increasing pressure levels, geopotential decreasing downwards, gravity > 0')
   kind, ps = en.invoke(en.load_function(vi.get_surface_pressure), E.Obj(centers=lev), geo, oro, g)
   if kind == 'raise':
     en.ensure(f'get_surface_pressure raises ({ps})', False)
